@@ -120,7 +120,7 @@ class MarkovChain(object):
                 f"Expected variables in state: {state_vars}, Got: {set(self.variables)}."
             )
         for var, val in state:
-            if val >= self.cardinalities[var]:
+            if not 0 <= val < self.cardinalities[var]:
                 raise ValueError(f"Assignment {val} to {var} invalid.")
         return True
 
